@@ -1459,9 +1459,10 @@ def evaluate(res: Result, cases: list[dict[str, Any]], rng: common.Rng, scope: b
         res.count(f"ndisc={len(case['discs'])}")
         res.count("self-coupled=" + str(any(o in d["ins"] for d in case["discs"] for o in d["outs"])))
         extra = m.get("extra", {})
-        if any(o.startswith("s") for d in case["discs"] for o in d["outs"]):
-            multi = any(o.startswith("s") and len(d["ins"]) > (2 if "x" in d["ins"] else 1) for d in case["discs"] for o in d["outs"])
-            res.count("private-self-coupling=" + ("in-a-coupled-discipline" if multi else "alone"))
+        owners = {k for k, d in enumerate(case["discs"]) for o in d["outs"] if o.startswith("s")}
+        if owners:
+            in_cycle = any(len(c) > 1 and owners & set(c) for c in scc_sequence(case))
+            res.count("private-self-coupling=" + ("member-of-a-cycle-of-several-disciplines" if in_cycle else "stand-alone-discipline"))
         for g in case.get("groups") or []:
             res.count(f"process-discipline={g['kind']}/{len(g['members'])}")
         if case.get("groups"):
@@ -1477,7 +1478,9 @@ def evaluate(res: Result, cases: list[dict[str, Any]], rng: common.Rng, scope: b
         if any(i >= 2 for i in iters) or m["cls"] in ("MDAQuasiNewton", "MDAChain"):
             res.nontrivial(json.dumps([case["discs"], case["order"], m, case["runs"]], sort_keys=True))
         if not scope:
-            res.count("probe")
+            res.count("probe=" + m.get("probe", "?"))
+            if "build_exc" in obs:
+                res.count("probe:build-raises=" + obs["build_exc"].split(": ")[0])
             try:
                 if oracle(case, obs):
                     res.count("probe-oracle-fails")
@@ -1530,16 +1533,22 @@ def evaluate(res: Result, cases: list[dict[str, Any]], rng: common.Rng, scope: b
                         "model_answers": [x[:2000] for x in answers[a:b]],
                         "impl": obs,
                         "diffs": diffs,
-                        "correspondence": "Driver/C06.lean `run` (GV.C06.execute)",
+                        "correspondence": "Driver/C06.lean `io`/`cfg`/`run` (GV.C06.strongCouplingVars, GV.C06.execute) or `grp`/`chain` (GV.C06.innerSettings, requiresMda, chainExecute)",
                     },
                 )
 
 
 def gen_probe(rng: common.Rng) -> dict[str, Any]:
-    """Out-of-scope probes: elementary MDAs used directly on weakly coupled systems, extreme relaxation."""
+    """Out-of-scope probes (never a VIOLATION): extreme relaxation factors, and the Newton-type MDAs used directly
+    on weakly coupled disciplines (MDANewtonRaphson documents a ValueError: "use MDAChain")."""
     case = gen_system(rng, "mixed", "lin")
-    case["mda"] = gen_mda(rng, case, rng.pick(["MDAGaussSeidel", "MDAJacobi"]))
-    case["mda"]["omega"] = rng.pick(["1", "2", "7/4"])
+    if rng.chance(0.5):
+        case["mda"] = gen_mda(rng, case, rng.pick(["MDANewtonRaphson", "MDAGSNewton"]))
+        case["mda"]["probe"] = "newton-on-weak"
+    else:
+        case["mda"] = gen_mda(rng, case, rng.pick(["MDAGaussSeidel", "MDAJacobi"]))
+        case["mda"]["omega"] = rng.pick(["2", "7/4"])
+        case["mda"]["probe"] = "extreme-relaxation"
     case["mda"]["warm"] = False
     case["runs"] = [{"x": [rat(rng.dyadic(-4, 4, 2)) for _ in range(case["vars"]["x"])]}]
     return case
@@ -1577,7 +1586,7 @@ def run(ctx) -> Result:
     while done < n_rep and time.time() < ctx.deadline:
         cases = []
         while len(cases) < min(batch, n_rep - done):
-            c = gen_case(rng, kind="lin", cls=rng.pick(["MDAJacobi", "MDAGaussSeidel", "MDANewtonRaphson"]))
+            c = gen_case(rng, kind="lin", cls=rng.pick(["MDAJacobi", "MDAGaussSeidel", "MDANewtonRaphson", "MDAChain"]), grouped=False)
             if replayable(c):
                 cases.append(c)
         evaluate(res, cases, rng)
